@@ -30,7 +30,7 @@ def asciiOnly (s : String) : Bool := s.toList.all (fun c => c.toNat < 128)
 def mkExt (dates : List (String × Option Int)) : Ext :=
   { libm1 := libm1, libm2 := libm2,
     parseDate := fun s => match dates.find? (fun p => p.1 == s) with
-      | some (_, r) => r
+      | some (_, r) => r.map some
       | none => none,
     lower := fun s => if asciiOnly s then some (String.ofList (s.toList.map Char.toLower)) else none,
     upper := fun s => if asciiOnly s then some (String.ofList (s.toList.map Char.toUpper)) else none }
